@@ -1,0 +1,79 @@
+//go:build verif
+
+package grammar
+
+// Contracts for the gowp verifier (/verif). Comment-only file.
+
+// The look-ahead buffer always holds k+1 tokens, tkns[0] being the current one.
+//@ spec macro LLkInv(l *LLk) Bool = l != nil && l.k >= 0 && len(l.tkns) == l.k + 1
+
+//@ props C18 C08
+//@ func appendNextToken
+//@   requires l != nil
+//@   modifies l.tkns
+//@   ensures[one-more] len(l.tkns) == old(len(l.tkns)) + 1
+//@   ensures[prefix-kept] forall j int :: {l.tkns[j]} 0 <= j && j < old(len(l.tkns)) ==> l.tkns[j] == old(l.tkns)[j]
+
+//@ func NewLLk
+//@   opt terminates
+//@   requires k >= 0
+//@   ensures[inv] LLkInv(result) && result.k == k && fresh(result)
+//@   loop 0 invariant l != nil && fresh(l) && l.k == k && len(l.tkns) == i && 0 <= i && i <= k + 1
+//@   loop 0 decreases k + 1 - i
+
+//@ func (l *LLk) Current
+//@   requires LLkInv(l)
+//@   ensures[current-token] result != nil && deref(result) == l.tkns[0]
+
+//@ func (l *LLk) Peek
+//@   requires LLkInv(l)
+//@   ensures[in-range] (result1 == nil) <==> (0 < k && k <= l.k)
+//@   ensures[value] result1 == nil ==> result0 != nil && deref(result0) == l.tkns[k]
+//@   ensures[error] result1 != nil ==> result0 == nil
+
+//@ func (l *LLk) CanAccept
+//@   requires LLkInv(l)
+//@   ensures[compares-current] result == (l.tkns[0].Type == tt)
+
+//@ func (l *LLk) Consume
+//@   requires LLkInv(l)
+//@   modifies l.tkns
+//@   ensures[inv] LLkInv(l)
+//@   ensures[matches-current] result == (old(l.tkns)[0].Type == tt)
+//@   ensures[mismatch-leaves-buffer] !result ==> l.tkns == old(l.tkns)
+//@   ensures[advance-by-one] result ==> forall j int :: {l.tkns[j]} 0 <= j && j < l.k ==> l.tkns[j] == old(l.tkns)[j+1]
+
+//@ func (e Element) Symbol
+//@   pure
+//@   ensures result == e.symbol
+//@ func (e Element) Token
+//@   pure
+//@   ensures result == e.tokenType
+
+// The grammar table handed to the parser has no nil clause.
+//@ spec macro GrammarOK(g *Grammar) Bool = g != nil && forall s semantic.Symbol, i int :: {deref(g)[s][i]} 0 <= i && i < len(deref(g)[s]) ==> deref(g)[s][i] != nil
+
+// The parser: whatever the hooks do to the statement, a nil error means that the whole token
+// sequence up to the end of the input was consumed.
+//@ func (p *Parser) Parse
+//@   opt modifies-outside github.com/google/badwolf/bql/grammar
+//@   modifies llk.tkns
+//@   requires p != nil && GrammarOK(p.grammar) && LLkInv(llk)
+//@   ensures[buffer-invariant] LLkInv(llk)
+//@   ensures[whole-statement] result == nil ==> llk.tkns[0].Type == lexer.ItemEOF
+
+//@ func (p *Parser) consume
+//@   opt modifies-outside github.com/google/badwolf/bql/grammar
+//@   modifies llk.tkns
+//@   requires p != nil && GrammarOK(p.grammar) && LLkInv(llk)
+//@   ensures[buffer-invariant] LLkInv(llk) && llk.k == old(llk.k)
+//@   ensures[grammar-untouched] p.grammar == old(p.grammar) && GrammarOK(p.grammar)
+//@   loop 0 invariant LLkInv(llk) && llk.k == old(llk.k) && p.grammar == old(p.grammar) && GrammarOK(p.grammar)
+
+//@ func (p *Parser) expect
+//@   opt modifies-outside github.com/google/badwolf/bql/grammar
+//@   modifies llk.tkns
+//@   requires p != nil && GrammarOK(p.grammar) && LLkInv(llk) && cls != nil
+//@   ensures[buffer-invariant] LLkInv(llk) && llk.k == old(llk.k)
+//@   ensures[grammar-untouched] p.grammar == old(p.grammar) && GrammarOK(p.grammar)
+//@   loop 0 invariant LLkInv(llk) && llk.k == old(llk.k) && p.grammar == old(p.grammar) && GrammarOK(p.grammar) && cls != nil
